@@ -442,6 +442,39 @@ func c02Check(t fataler, c *c02Case) {
 
 func TestC02(t *testing.T) { rapid.Check(t, c02Run) }
 
+// c02Lua: a script entry is loaded with SCRIPT LOAD exactly when filter.lua is off.
+func c02Lua(t *rapid.T) {
+	defer resetC02Conf()
+	body := []byte(rapid.SampledFrom([]string{"return 1", "return redis.call('get',KEYS[1])", "local a = 1\nreturn {a, ARGV[1]}", ""}).Draw(t, "body") + rapid.StringMatching(`( --[a-z0-9]{0,8})?`).Draw(t, "tail"))
+	conf.Options.FilterLua = rapid.Bool().Draw(t, "filterLua")
+	defer func() { conf.Options.FilterLua = false }()
+	srv := newTarget(rapid.SampledFrom(targetKinds).Draw(t, "target"))
+	defer srv.Close()
+	conn := openTarget(t, srv)
+	defer conn.Close()
+	e := &rdb.BinEntry{DB: 0, Key: []byte("lua"), Type: rdb.RdbFlagAUX, Value: body, NeedReadLen: 1}
+	var rerr error
+	res := logcap.Run(func() { rerr = utils.RestoreRdbEntry(conn, e) })
+	if !res.Completed || rerr != nil {
+		violation(t, "C02", "lua:error", "script entry (filter.lua=%v): %v err=%v", conf.Options.FilterLua, res, rerr)
+		return
+	}
+	srv.Lock()
+	n := len(srv.Scripts)
+	var got []byte
+	for _, b := range srv.Scripts {
+		got = b
+	}
+	srv.Unlock()
+	if conf.Options.FilterLua && n != 0 || !conf.Options.FilterLua && (n != 1 || !bytes.Equal(got, body)) {
+		violation(t, "C02", "lua:load", "script %q with filter.lua=%v: target holds %d scripts (%q)", body, conf.Options.FilterLua, n, got)
+		return
+	}
+	stats.C.Case(!conf.Options.FilterLua, stats.Hash(body), "route:lua")
+}
+
+func TestC02Lua(t *testing.T) { rapid.Check(t, c02Lua) }
+
 // c02Chunked: a hash beyond the 16 MiB chunk limit goes through the real parser and is restored
 // chunk by chunk on one connection; the target must end with exactly the source hash and ttl.
 func c02Chunked(t *rapid.T) {
